@@ -97,7 +97,7 @@ def work(job):
         res["counters"]["cross_device_tmpdir_injections"] = 1
     if reads:
         pass
-    elif action == "stall+kill":
+    elif action in ("stall+kill", "stall+EIO"):
         res["counters"]["stalled_write_injections"] = 1
         fired = [o for o in fired if o["fired"].startswith("kill")] or fired
     elif action.startswith("short+"):
@@ -126,7 +126,7 @@ def work(job):
     # online trace rule: nothing is written through a name that is already a source file
     through = [o for o in (rec.shim or []) if fault.phase_of(o) in TRACE_RULE_PHASES]
     torn = {rel: s for rel, s in states.items() if s.startswith("torn")}
-    act_class = action if (action in ("kill-before", "kill-after", "short", "EPIPE-on-log-line", "all-reads-short", "stall+kill") or action.startswith("read-")) else "short+errno" if action.startswith("short+") else ("persistent-errno" if action.startswith("persistent") else ("errno+kill" if "+kill" in action else "errno"))
+    act_class = action if (action in ("kill-before", "kill-after", "short", "EPIPE-on-log-line", "all-reads-short", "stall+kill", "stall+EIO") or action.startswith("read-")) else "short+errno" if action.startswith("short+") else ("persistent-errno" if action.startswith("persistent") else ("errno+kill" if "+kill" in action else "errno"))
     for rel, s in sorted(torn.items()):
         res["violations"].append({"signature": "C07.%s|%s|%s" % (s, act_class, phase),
                                   "detail": {"file": rel, "state": s, "k": k, "action": action, "phase": phase, "end": rec.ended(),
@@ -253,9 +253,16 @@ def main(tier):
         # a write to the scratch file that stalls for seconds (hung NFS / FUSE mount) with the process killed right after the rename:
         # whatever the run does while it waits, the source must not name an incomplete file
         if pi < 3:
+            # per scratch file: its last write (the one the final flush issues) and, for the first file, its first write
+            lastw = {}
+            for o in ops:
+                if fault.phase_of(o) == "tmp-write":
+                    lastw[o["path"]] = o["n"]
             tw = [o["n"] for o in ops if fault.phase_of(o) == "tmp-write"]
-            for k in sorted(set(tw[-2:] + tw[:1])):
-                jobs.append((built, pi, proj, expected, k, "stall+kill", "n=%d,act=delay:6500;kind=rename,path~=breadlog-,act=kill-after" % k, "tmp-write"))
+            for k in sorted(set(list(lastw.values())[:3] + tw[:1])):
+                jobs.append((built, pi, proj, expected, k, "stall+kill", "n=%d,act=delay:6500;from=%d,kind=rename,path~=breadlog-,act=kill-after" % (k, k), "tmp-write"))
+                # ... or the stalled write finally fails (EIO after a soft-mount time-out): the file must not be replaced
+                jobs.append((built, pi, proj, expected, k, "stall+EIO", "n=%d,act=slowerr:5" % k, "tmp-write"))
         # faults on the read side: every read(2) on a source file fails / is short / is short and then fails
         rops, _, _, _, _ = fault.clean_reference(built, proj, read_ops=True)
         for label, rules in fault.read_fault_rules(rops):
